@@ -262,6 +262,12 @@ func c14Case(c *core.Ctx, id string) {
 	g := &pj.Gen{R: c.Rand(id)}
 	base := filepath.Join(c.Scratch, "c14-"+strings.ReplaceAll(id, "/", "-"))
 	defer os.RemoveAll(base)
+	if hashStr(id)%2 == 1 {
+		// the project is reached through a symbolic link (a linked checkout or working directory)
+		os.MkdirAll(filepath.Join(base, "real-a"), 0o755)
+		os.Symlink(filepath.Join(base, "real-a"), filepath.Join(base, "a"))
+		c.Count("projects_reached_through_a_symlink", 1)
+	}
 	s := pj.NewSession(filepath.Join(base, "a"))
 	p := g.Project()
 	e := pj.NewEngine(s, p, g)
